@@ -953,3 +953,30 @@ def calls_decl_expr(e, *suffixes):
         if x.k == 'call' and x.c is not None and any(x.c.declared.endswith(s) for s in suffixes):
             return True
     return False
+
+
+def every_iteration_passes(body, target_bb, extra_pass=()):
+    """In the innermost natural loop around block `target_bb`: does every iteration that received an element (the Some
+    edge of the loop's `next()`) pass through target_bb (or a node in extra_pass) before the next iteration starts?
+    returns (ok, witness_line, reason). Fail closed (ok False) when the loop shape is not recognised."""
+    loops = [(h, ns) for h, ns in natural_loops(body) if target_bb in ns]
+    if not loops:
+        return False, None, 'the site is not inside a loop'
+    h, ns = min(loops, key=lambda x: len(x[1]))
+    inner = [ns2 for _h2, ns2 in natural_loops(body) if len(ns2) < len(ns)]
+    starts = []
+    for nnode, e in body.edge_nodes().items():
+        if e[0] not in ns or any(e[0] in ns2 for ns2 in inner):
+            continue
+        c = F.edge_cond(body, e)
+        if c.kind == 'disc' and c.variant_is(1) and mentions_next(c.expr) is not None:
+            starts.append(nnode)
+    if not starts:
+        return False, None, 'cannot find the element-yielding edge of the loop (fail closed)'
+    reach = body.reachable_from(starts, set([target_bb]) | set(extra_pass))
+    back = [p for p in body.cfg()[1][h] if p in ns and p in reach]
+    if not back:
+        return True, None, 'every element of the loop reaches the site'
+    n = len(body.blocks)
+    wb = back[0] if back[0] < n else body.cfg()[2][back[0]][0]
+    return False, body.line_of_block(wb), 'an element can be skipped (next iteration reached from line %s without passing the site)' % body.line_of_block(wb)
